@@ -72,7 +72,11 @@ class C20(Check):
                   "write attempt after a fatal error) is repaired (fix: commit in /repo); its interleaving stays in the corpus and the full statement is theorem ctl_no_attempt_after_fatal.")
     trusted_base = ["model Model/SendPath.lean hand-written from ioworker/__init__.py and of_01.py Connection.send/DeferredSender; tied by this correspondence run",
                     "other connections abstracted to an environment that can only set/clear the global `sending` flag under the lock"]
-    assumptions = ["messages passed to send are non-empty", "GIL atomicity of the modelled steps; RLock mutual exclusion", "send on a shut-down socket fails"]
+    assumptions = ["messages passed to send are non-empty", "GIL atomicity of the modelled steps; RLock mutual exclusion", "send on a shut-down socket fails",
+                   "controller connection: `disconnected` is only ever set by a fatal SEND error in this model; a disconnect from the cooperative side (read EOF, echo timeout, application disconnect()) while data is deferred is not an action of the model",
+                   "select never reports an exceptional condition (elist) for a connection with deferred data: DeferredSender.run would then drop the queued data silently and leave the connection up (outside the property's fault alphabet: short writes, would-block, fatal errors); likewise its outer bare `except`",
+                   "'reported closed exactly once' for the controller connection is ConnectionDown, which is C09's theorem down_once (both fatal paths end in Connection.disconnect, guarded by disconnection_raised); part A proves it for the IOWorker",
+                   "IOWorker: connecting sockets (_connecting/_try_connect) and shutdown(send) are not modelled"]
     rule = ("case A = op sequence over {send, send_fast(outcome), loop iteration(outcome), loop iteration with the worker readable AND writable (data / end of stream / receive error, then outcome)}; case B = action sequence over {Connection.send(data, outcome), sender iteration(outcomes), "
             "other connection defers / is flushed}; corpus = all sequences of 3 messages x 4 calls over 6 outcomes (A) and all B sequences of length <= 4 over a 9-letter alphabet; "
             "non-trivial = a partial write, EAGAIN or fatal outcome was consumed")
